@@ -372,18 +372,27 @@ func (x *Exec) stmt(st *State, s ast.Stmt, fr *frame, k func(*State)) {
 			for _, rv := range fr.results {
 				rs = append(rs, st.vars[rv])
 			}
-			fr.onReturn(st, rs)
+			x.runDefers(st, func(st *State) { fr.onReturn(st, rs) })
 			return
 		}
 		if len(s.Results) == 1 {
 			if ce, ok := ast.Unparen(s.Results[0]).(*ast.CallExpr); ok {
 				if tup, ok := x.info.TypeOf(ce).(*types.Tuple); ok && tup.Len() > 1 {
-					x.call(st, ce, func(st *State, rs []Term) { fr.onReturn(st, rs) })
+					x.call(st, ce, func(st *State, rs []Term) { x.runDefers(st, func(st *State) { fr.onReturn(st, rs) }) })
 					return
 				}
 			}
 		}
-		x.exprList(st, s.Results, func(st *State, vs []Term) { fr.onReturn(st, vs) })
+		x.exprList(st, s.Results, func(st *State, vs []Term) { x.runDefers(st, func(st *State) { fr.onReturn(st, vs) }) })
+	case *ast.DeferStmt:
+		// defer func() { … }(): the literal runs when the enclosing function returns (no recover: it is outside the subset)
+		lit, ok := ast.Unparen(s.Call.Fun).(*ast.FuncLit)
+		if !ok || len(s.Call.Args) != 0 {
+			x.undecide("unsupported defer at %s", x.prog.pos(s))
+			return
+		}
+		st.defers = append(st.defers, deferRec{st.depth, lit})
+		k(st)
 	case *ast.IfStmt:
 		body := func(st *State) {
 			x.cond(st, s.Cond, func(st *State, c string) {
@@ -1891,4 +1900,23 @@ func (x *Exec) composite(st *State, e *ast.CompositeLit, addr bool, k func(*Stat
 	default:
 		x.undecide("unsupported composite literal %s at %s", t, x.prog.pos(e))
 	}
+}
+
+// runDefers runs the deferred literals of the function that is returning (those registered at the
+// current inlining depth), last first, then continues with k.
+func (x *Exec) runDefers(st *State, k func(*State)) {
+	for i := len(st.defers) - 1; i >= 0; i-- {
+		if st.defers[i].depth == st.depth {
+			lit := st.defers[i].lit
+			st.defers = append(append([]deferRec(nil), st.defers[:i]...), st.defers[i+1:]...)
+			u := x.prog.UnitOfLit[lit]
+			if u == nil {
+				x.undecide("deferred literal without unit at %s", x.prog.pos(lit))
+				return
+			}
+			x.inlineCall(st, u, nil, nil, func(st *State, _ []Term) { x.runDefers(st, k) })
+			return
+		}
+	}
+	k(st)
 }
